@@ -9,7 +9,7 @@ import copy
 import re
 import sys
 import warnings
-from functools import lru_cache
+from functools import lru_cache, wraps
 from importlib.metadata import version
 from numbers import Number as numeric_type
 
@@ -176,17 +176,40 @@ def _iterable(obj):
     return True
 
 
-@lru_cache(maxsize=128, typed=False)
+def _unit_rule_cache(func):
+    """Memoize a unit rule on its arguments *and* on the registries they are
+    bound to.
+
+    Unit objects compare (and hash) by value, so two units that belong to
+    different registries with the same contents are the same lru_cache key.
+    Without the registries in the key, a result computed for one registry
+    would be handed to operands bound to the other one.
+    """
+
+    @lru_cache(maxsize=128, typed=False)
+    def cached(registries, *args):
+        return func(*args)
+
+    @wraps(func)
+    def wrapper(*args):
+        return cached(tuple(getattr(a, "registry", None) for a in args), *args)
+
+    wrapper.cache_info = cached.cache_info
+    wrapper.cache_clear = cached.cache_clear
+    return wrapper
+
+
+@_unit_rule_cache
 def _sqrt_unit(unit):
     return 1, unit**0.5
 
 
-@lru_cache(maxsize=128, typed=False)
+@_unit_rule_cache
 def _cbrt_unit(unit):
     return 1, unit ** (1.0 / 3.0)
 
 
-@lru_cache(maxsize=128, typed=False)
+@_unit_rule_cache
 def _multiply_units(unit1, unit2):
     try:
         ret = (unit1 * unit2).simplify()
@@ -198,7 +221,7 @@ def _multiply_units(unit1, unit2):
     return ret.as_coeff_unit()
 
 
-@lru_cache(maxsize=128, typed=False)
+@_unit_rule_cache
 def _preserve_units(unit1, unit2=None):
     if unit2 is None or unit1.dimensions is not temperature:
         return 1, unit1
@@ -207,7 +230,7 @@ def _preserve_units(unit1, unit2=None):
     return 1, unit1
 
 
-@lru_cache(maxsize=128, typed=False)
+@_unit_rule_cache
 def _difference_units(unit1, unit2=None):
     if unit1.dimensions is not temperature:
         return _preserve_units(unit1, unit2)
@@ -243,17 +266,17 @@ def _difference_units(unit1, unit2=None):
         )
 
 
-@lru_cache(maxsize=128, typed=False)
+@_unit_rule_cache
 def _power_unit(unit, power):
     return 1, unit**power
 
 
-@lru_cache(maxsize=128, typed=False)
+@_unit_rule_cache
 def _square_unit(unit):
     return 1, unit * unit
 
 
-@lru_cache(maxsize=128, typed=False)
+@_unit_rule_cache
 def _divide_units(unit1, unit2):
     try:
         ret = (unit1 / unit2).simplify()
@@ -262,7 +285,7 @@ def _divide_units(unit1, unit2):
     return ret.as_coeff_unit()
 
 
-@lru_cache(maxsize=128, typed=False)
+@_unit_rule_cache
 def _reciprocal_unit(unit):
     return 1, unit**-1
 
